@@ -332,6 +332,17 @@ def general_form(rng: random.Random, big=False) -> dict:
     if rng.random() < 0.06:
         st["attribute::xmlns:loc"] = "urn:local"
         st["attribute::loc:attr"] = text()
+    if rng.random() < 0.2:
+        # a prefixed attribute whose LOCAL name equals one the converter generates on the instance root (id, version,
+        # xmlns, odk:prefix, odk:delimiter): minidom's setAttribute evicts by local name — the generated ones must survive
+        for _ in range(rng.randint(1, 2)):
+            pfx = rng.choice((declared or []) + ["jr", "odk", "orx", "ev"])
+            loc = rng.choice(["id", "id", "version", "xmlns", "prefix", "delimiter"])
+            st[rng.choice(["attribute::", "attribute::", "instance::"]) + pfx + ":" + loc] = rng.choice(["x", "9", text()])
+        if rng.random() < 0.5:
+            st.setdefault("version", "7")
+        if rng.random() < 0.3:
+            st.setdefault("prefix", "pp")
     if rng.random() < 0.12:
         # settings rows accept instance:: columns like any section: attributes of the primary instance root
         for k in rng.sample(["id", "version", "xmlns", "foo", "odk:prefix", "jr:x", "custom-attr"], rng.randint(1, 2)):
@@ -346,6 +357,19 @@ def general_form(rng: random.Random, big=False) -> dict:
         inject_entities(rng, form)
     if rng.random() < 0.25:
         inject_local_ns(rng, form)
+    if rng.random() < 0.12:
+        # reserved-prefix look-alikes in a user-supplied name position (most must be rejected: the prefix is not declared)
+        n = reserved_prefix_name(rng)
+        r = rng.random()
+        named = [x for x in form["survey"] if x.get("name")]
+        if r < 0.55 and named:
+            rng.choice(named)[rng.choice(CUSTOM_COLS[:3]) + n] = "v"
+        elif r < 0.75:
+            form.setdefault("settings", [{}])[0]["attribute::" + n] = "v"
+        elif r < 0.9:
+            form["survey"].append({"type": rng.choice(["text", "note"]), "name": n, "label": "L"})
+        else:
+            form.setdefault("settings", [{}])[0]["name"] = n
     return form
 
 
@@ -407,10 +431,21 @@ def boundary_chars():
 BOUNDARY = boundary_chars()
 
 
+RESERVED_LOOKALIKES = ["xml", "xmlns", "XML", "Xml", "xML", "XMLNS", "XmlNs", "xmlNS", "Xmlns", "xmlx", "xm", "XMLa", "xml-ns", "_xml"]
+
+
+def reserved_prefix_name(rng):
+    """`p:local` where p is `xml` / `xmlns` or a case / spelling variant of them: only the exact lower-case
+    `xml` is predeclared for XML parsers, `xmlns` is for declarations only, everything else has to be declared"""
+    return rng.choice(RESERVED_LOOKALIKES) + ":" + rng.choice(["lang", "space", "base", "id", "note", "q", "foo", "a-b"])
+
+
 def probe_name(rng):
     c = rng.choice(BOUNDARY)
     r = rng.random()
-    if r < 0.05:
+    if r < 0.2:
+        return reserved_prefix_name(rng)
+    if r < 0.25:
         return rng.choice([TYPO_LIT, "a" + TYPO_LIT, TYPO_LIT + "b", "q" + TYPO_LIT + "z", TYPO_LIT[:3], TYPO_LIT[1:]])
     shape = rng.choice(["a{}", "{}a", "{}", "a{}b", "a{}{}", "_{}1", "a.{}", "a-{}"])
     return shape.format(c, rng.choice(BOUNDARY)) if shape.count("{}") == 2 else shape.format(c)
@@ -494,7 +529,8 @@ def random_named_tree(rng, depth=0, prefixes=None):
             locals_.add(loc)
             attrs.append([k, v])
     for _ in range(rng.choice([0, 0, 1, 1, 2])):
-        p = rng.choice(["p", "q", "esri", "p", "q", "e-1", "xml", "xmlns", "é", "1x", probe_name(rng), ""])
+        p = rng.choice(["p", "q", "esri", "p", "q", "e-1", "xml", "xmlns", "é", "1x", probe_name(rng), "",
+                        rng.choice(RESERVED_LOOKALIKES)])
         v = rng.choice(["http://x", "urn:y", "http://x", "urn:y", "a b", "", dom_value(rng), "http://www.w3.org/2000/xmlns/"])
         add("xmlns:" + p, v)
         if v and p not in ("xml", "xmlns"):
